@@ -120,7 +120,11 @@ static int read_from_tree(BitStreamReader *reader, TreeElement *tree)
 	u32 v = SEQ_NEXT(u32, walkval);
 	unsigned bound;
 	(void) reader;
+#ifdef CODE_LEAF_CAP
+	if (tree == dec.code_tree) bound = CODE_LEAF_CAP;      /* this variant: code-tree leaves up to CODE_LEAF_CAP only (see plan) */
+#else
 	if (tree == dec.code_tree) bound = CODE_LEAF_MAX;
+#endif
 	else if (tree == dec.offset_tree) bound = OFF_LEAF_MAX;
 	else { CHECK(tree == dec.temp_tree, "lh_new: [C09] only the decoder's own trees are walked"); bound = TEMP_LEAF_MAX; }
 	if (walks >= walk_limit || (SEQ_NEXT(u8, walkfail) & 1)) return -1;
@@ -268,7 +272,11 @@ void harness_read(void)
 	CHECK(n <= OUTPUT_BUFFER_SIZE, "lh_new: [C09] read returns at most max_read");
 	CHECK(n <= LONGEST, "lh_new: [C09] one command yields at most the longest copy");
 	CHECK(dec.ringbuf_pos < RING, "lh_new: [C09] write position stays inside the ring");
+#ifdef CODE_LEAF_CAP
+	if (n == 258) WITNESS("longest copy of this variant");
+#else
 	if (n == LONGEST) WITNESS("longest copy");
+#endif
 	if (n == 1) WITNESS("literal");
 	if (rem == 0 && n > 0) WITNESS("new block, then a command");
 	WITNESS("end");
